@@ -154,9 +154,12 @@ def _check_content(sec, kind, codec, problems):
         if not isinstance(obj, dict):
             problems.append(('meta_not_object', where))
             return
-        if not text.endswith('\n'):
+        nlt = '\r\n' if nl_kind == 'dos' else '\n'
+        if not text.endswith(nlt):
             problems.append(('content_lacks_final_newline', where))
-        elif not jsoncanon.same_layout(text[:-1], jsoncanon.canonical(obj)):
+        elif not jsoncanon.same_layout(
+                text[:-len(nlt)],
+                jsoncanon.canonical(obj).replace('\n', nlt)):
             problems.append(('json_layout_not_canonical', where))
     elif kind == 'preamble' and codec is not None:
         try:
